@@ -356,6 +356,10 @@ def w_profiles(idx):
         elif i % 5 == 4:
             Node.store.clear()                         # the registry is not the tree
             how = "registry emptied after building"
+        elif i % 5 == 0 and i % 3 == 1:
+            root.add_namespace(None, "https://eml.ecoinformatics.org/eml-2.2.0")
+            root.add_namespace("xsi", "http://www.w3.org/2001/XMLSchema-instance")
+            how = "default + prefixed namespace on every node"
         elif i % 5 == 2:
             for x in walk(root):
                 x.prefix = "eml"                       # qualified elements, as after importing <eml:dataset>...: rules go by element NAME
